@@ -7,7 +7,7 @@
 //@ expect: assertion>=6 canary=5
 #include "_unit.h"
 #include "_list.h"
-/* cert_get_subject_names == [CN, if the subject has one] ++ [the DNS names of the subjectAltName without embedded NUL, in order,
+/* cert_get_subject_names == [CN, if the subject has one without embedded NUL] ++ [the DNS names of the subjectAltName without embedded NUL, in order,
  * each one only if it is not in the list yet]: no duplicates; the caller owns the list and everything else has been released */
 void harness(void)
 {
@@ -16,12 +16,15 @@ void harness(void)
     xv_nm_calls = 0; xv_nm_fills = 0; xv_subj_calls = 0; xv_dup_calls = 0;
     xv_asn1_nt = 1; xv_gn_want = GEN_DNS; xv_subj_null = 0;
     __CPROVER_assume(xv_gn_num >= 0 && xv_gn_num <= 3 && xv_cn_len >= 0 && xv_cn_len <= 2);
+    xv_cn_z = xv_cn_len;        /* no NUL forced into the common name; its bytes are arbitrary (may be NUL) anyway */
 
     struct slist *names = cert_get_subject_names(XV_CERT);
 
     /* the expected list, from what the model handed out */
     char expect[4][3]; size_t en = 0, i, k;
-    if (xv_cn_present) { expect[0][0] = xv_ex_cn[0]; expect[0][1] = xv_ex_cn[0] != 0 ? xv_ex_cn[1] : 0; expect[0][2] = 0; en = 1; }
+    /* (a common name with an embedded NUL is not reported at all - fix 26bc195; before, its prefix was) */
+    _Bool cn_whole = xv_cn_present && (xv_cn_len < 1 || xv_ex_cn[0] != 0) && (xv_cn_len < 2 || xv_ex_cn[1] != 0);
+    if (cn_whole) { expect[0][0] = xv_ex_cn[0]; expect[0][1] = xv_ex_cn[1]; expect[0][2] = 0; en = 1; }
     if (!xv_gn_absent)
         for (i = 0; i < (size_t)xv_gn_num; i++) {
             if (!xv_ex_match[i]) continue;
@@ -37,9 +40,9 @@ void harness(void)
     XV_ASSERT(xv_heap_live == 1 + (en > 0 ? 1 : 0) + (long)en, "PO[C08] cert_get_subject_names.only_the_list_is_left_and_the_caller_owns_it");
     if (en == 0) XV_CANARY("no names at all");
     if (en == 4) XV_CANARY("CN and three different DNS names");
-    if (en == 1 && xv_cn_present && !xv_gn_absent && xv_gn_num == 3 && xv_ex_match[0] && xv_ex_match[1] && xv_ex_match[2]) XV_CANARY("three DNS names equal to the CN");
-    if (en == 2 && !xv_cn_present && xv_gn_num == 3 && xv_ex_match[0] && xv_ex_match[1] && xv_ex_match[2]) XV_CANARY("one DNS name twice");
-    if (en == 1 && !xv_cn_present && xv_gn_num == 3) XV_CANARY("one DNS name among other types");
+    if (en == 1 && cn_whole && !xv_gn_absent && xv_gn_num == 3 && xv_ex_match[0] && xv_ex_match[1] && xv_ex_match[2]) XV_CANARY("three DNS names equal to the CN");
+    if (en == 2 && !cn_whole && xv_gn_num == 3 && xv_ex_match[0] && xv_ex_match[1] && xv_ex_match[2]) XV_CANARY("one DNS name twice");
+    if (en == 1 && !cn_whole && xv_gn_num == 3) XV_CANARY("one DNS name among other types");
     slist_destroy(names);
     XV_ASSERT(xv_heap_live == 0, "PO[C08] slist_destroy.nothing_left");
 }
